@@ -203,15 +203,26 @@ struct Rt {
     obs: Obs,
 }
 
-pub static SERVER_POLLS: std::sync::atomic::AtomicU64 = std::sync::atomic::AtomicU64::new(0);
-pub static CLIENT_POLLS: std::sync::atomic::AtomicU64 = std::sync::atomic::AtomicU64::new(0);
-pub static HANDLER_POLLS: std::sync::atomic::AtomicU64 = std::sync::atomic::AtomicU64::new(0);
+thread_local! {
+    /// polls of the two connection futures and of the handlers in the current execution
+    static POLLS: std::cell::Cell<u64> = const { std::cell::Cell::new(0) };
+}
+/// A legitimate execution needs a few thousand polls. Beyond this budget the connection futures
+/// are parked, the run winds down and is reported as a machinery error (a livelock between the
+/// peer library and the server would otherwise keep `settle` from ever returning).
+pub const POLL_BUDGET: u64 = 400_000;
 
-struct Counted<F>(F, &'static std::sync::atomic::AtomicU64);
+struct Counted<F>(F);
 impl<F: Future + Unpin> Future for Counted<F> {
     type Output = F::Output;
     fn poll(mut self: Pin<&mut Self>, cx: &mut Context<'_>) -> Poll<F::Output> {
-        self.1.fetch_add(1, std::sync::atomic::Ordering::Relaxed);
+        let n = POLLS.with(|p| {
+            p.set(p.get() + 1);
+            p.get()
+        });
+        if n > POLL_BUDGET {
+            return Poll::Pending;
+        }
         Pin::new(&mut self.0).poll(cx)
     }
 }
@@ -237,6 +248,8 @@ pub struct Exec {
     pub horizon: bool,
     /// a panic was raised inside a spawned task (location, message)
     pub task_panic: Option<(String, String)>,
+    /// polls of connection futures + handlers (see POLL_BUDGET)
+    pub polls: u64,
 }
 
 async fn settle() {
@@ -245,6 +258,7 @@ async fn settle() {
 
 pub fn execute(scn: &Scn, ch: &mut Chooser) -> Exec {
     let _ = mc_core::explore::take_last_panic();
+    POLLS.with(|p| p.set(0));
     let rt = tokio::runtime::Builder::new_current_thread()
         .enable_time()
         .start_paused(true)
@@ -255,6 +269,7 @@ pub fn execute(scn: &Scn, ch: &mut Chooser) -> Exec {
     drop(local);
     drop(rt);
     ex.task_panic = mc_core::explore::take_last_panic();
+    ex.polls = POLLS.with(|p| p.get());
     ex
 }
 
@@ -277,13 +292,14 @@ async fn drive(scn: &Scn, ch: &mut Chooser) -> Exec {
         b = b.h2_initial_connection_window_size(w);
     }
     let (s2, r2) = (specs.clone(), rec.clone());
-    let factory = b.h2(fn_service(move |req: Request| Counted(Box::pin(handle(req, s2.clone(), r2.clone())), &HANDLER_POLLS)));
+    let factory = b.h2(fn_service(move |req: Request| Counted(Box::pin(handle(req, s2.clone(), r2.clone())))));
     let svc = factory.new_service(()).await.expect("new_service");
-    let conn = svc.call((server_io, None));
+    let wire_log = Rc::new(RefCell::new(Vec::<String>::new()));
+    let conn = svc.call((crate::wire::Wire::new(server_io, wire_log.clone()), None));
     let server_done = Rc::new(RefCell::new(None::<String>));
     let sd = server_done.clone();
     tokio::task::spawn_local(async move {
-        let r = Counted(Box::pin(conn), &SERVER_POLLS).await;
+        let r = Counted(Box::pin(conn)).await;
         *sd.borrow_mut() = Some(match r {
             Ok(()) => "ok".to_string(),
             Err(e) => format!("err:{e}"),
@@ -300,7 +316,7 @@ async fn drive(scn: &Scn, ch: &mut Chooser) -> Exec {
     let client_done = Rc::new(RefCell::new(None::<String>));
     let cd = client_done.clone();
     tokio::task::spawn_local(async move {
-        let r = Counted(Box::pin(connection), &CLIENT_POLLS).await;
+        let r = Counted(Box::pin(connection)).await;
         *cd.borrow_mut() = Some(match r {
             Ok(()) => "ok".to_string(),
             Err(e) => format!("err:{}", canon_err(&e)),
@@ -457,6 +473,9 @@ async fn drive(scn: &Scn, ch: &mut Chooser) -> Exec {
                 break;
             }
             settle().await;
+            for l in wire_log.borrow_mut().drain(..) {
+                log.lines.push(l);
+            }
 
             // ---- read what arrived, one frame per stream
             let mut progress = started_now;
@@ -622,5 +641,5 @@ async fn drive(scn: &Scn, ch: &mut Chooser) -> Exec {
         server_done.borrow(),
         client_done.borrow()
     ));
-    Exec { obs: out, log: log.lines, steps, horizon, task_panic: None }
+    Exec { obs: out, log: log.lines, steps, horizon, task_panic: None, polls: 0 }
 }
